@@ -1,4 +1,5 @@
 import Driver.LogCmd
+import Driver.BloomCmd
 /-
 `raindrv`: one request per line on stdin, one answer per line on stdout.
 Unknown or malformed requests answer `bad-request` (never a default value).
@@ -11,6 +12,7 @@ def dispatch (toks : List String) : String :=
   | cmd :: _ =>
     let r :=
       if cmd.startsWith "log." then logCmd toks
+      else if cmd.startsWith "bloom." || cmd.startsWith "filter." then bloomCmd toks
       else none
     match r with
     | some s => s
